@@ -38,8 +38,8 @@ def r1(run):
         for (bb, cond, t_edges, f_edges) in tests:
             if not (t_edges and q.dominated(b, c.bb, via_edges=t_edges)):
                 continue
-            idb = frame_base_of(cond[2][0])
-            ttlb = ttl_time_payload_base(cond[2][1])
+            from .store_shared import expiry_test_subject
+            idb, ttlb = expiry_test_subject(run, cond)
             if pbase is not None and idb == pbase and ttlb == pbase:
                 ok = True
                 why = "%s(&%s.id, &(%s.ttl as Some(Time)).0)" % (cond[1].fn.split("::")[-1], idb, ttlb)
@@ -224,6 +224,22 @@ def r4(run):
     for p in sorted(preds):
         pb = C.body_or_fail(run, p)
         rets = pb.return_defs()
+        if len(rets) > 1:
+            # `let Some(TTL::Time(ttl)) = frame.ttl.as_ref() else { return false }`: frames without a time TTL never expire
+            guard_e = []
+            for bb2, si2 in pb.switches():
+                if si2["kind"] == "variant" and q.has_field(si2["cond"], "ttl"):
+                    for (t2, lab2, m2) in si2["edges"]:
+                        ms2 = set(m2) if isinstance(m2, tuple) else {m2}
+                        if ms2 and not (ms2 & {"Some", "Time"}):
+                            guard_e.append((bb2, t2, lab2))
+            kept = []
+            for (rb2, e2, raw2) in rets:
+                x2 = strip(e2)
+                if x2[0] == "const" and x2[1].get("bool") is False and guard_e and q.dominated(pb, rb2, via_edges=guard_e):
+                    continue
+                kept.append((rb2, e2, raw2))
+            rets = kept
         if len(rets) != 1:
             run.unrecognised("%s|shape" % p, "expiry predicate has %d return definitions" % len(rets), pb.sp)
             continue
@@ -252,6 +268,8 @@ def r4(run):
                 if y[0] == "call" and y[1].fn == "scru128::id::Scru128Id::timestamp":
                     s.add("created")
                 if y[0] == "arg" and y[1] == 2:
+                    s.add("ttl")
+                if y[0] == "downcast" and y[2] == "Time" and q.has_field(y, "ttl"):
                     s.add("ttl")
             return s
         sl, sr = side(l), side(r)
